@@ -30,6 +30,43 @@ func textsAt(l lm.List, num, den int64) string {
 	return fmt.Sprint(o)
 }
 
+// checkUnfragmentShared: the same list with every group of equal cues (times, text) held as ONE object listed
+// several times - a list is a slice of pointers, and nothing says they are distinct. The specification does not
+// see the difference (equal cues that touch are merged into one), so the result must be the one for distinct objects.
+func checkUnfragmentShared(l lm.List) (string, string, bool) {
+	r := lm.Build(l, nil, nil)
+	shared := false
+	for i := range l {
+		for j := i + 1; j < len(l); j++ {
+			if l[i].S == l[j].S && l[i].E == l[j].E && l[i].T == l[j].T && l[i].St == l[j].St && l[i].Rg == l[j].Rg && r.Subs.Items[j] != r.Subs.Items[i] {
+				r.Subs.Items[j] = r.Subs.Items[i]
+				shared = true
+			}
+		}
+	}
+	if !shared {
+		return "", "", false
+	}
+	exp := refops.Unfragment(l)
+	pan := ""
+	func() {
+		defer func() {
+			if e := recover(); e != nil {
+				pan = fmt.Sprint(e)
+			}
+		}()
+		r.Subs.Unfragment()
+	}()
+	if pan != "" {
+		return "unfragment.panic", fmt.Sprintf("Unfragment on %s (equal cues being one object listed several times) panicked: %s", l, pan), true
+	}
+	got := r.Extract()
+	if !lm.EqualNoUID(got.NormEqualStarts(), exp.NormEqualStarts()) {
+		return "unfragment.result", fmt.Sprintf("Unfragment on %s (equal cues being one object listed several times): expected %s, got %s", l, exp, got), true
+	}
+	return "", "", true
+}
+
 func checkUnfragment(l lm.List, unit int64) (lm.List, string, string) {
 	exp := refops.Unfragment(l)
 	r := lm.Build(l, []string{"a"}, []string{"r"})
@@ -121,6 +158,13 @@ func c11Run(c *core.Ctx) {
 				if !c.Mine() {
 					return true
 				}
+				if k2, m2, ran := checkUnfragmentShared(l0.Scale(unit)); ran {
+					c.Transitions++
+					c.Record("unfragment.shared", core.Hash64(k2), core.Hash64("shared", l0.Scale(unit).Key()), nil)
+					if k2 != "" {
+						c.Violate("unfragment", k2, m2, opCase{Op: "unfragment-shared", Unit: unit, List: l0.Scale(unit)}, len(l0)*1000+5)
+					}
+				}
 				l := decorate(l0.Scale(unit))
 				exp, key, msg := checkUnfragment(l, unit)
 				c.Transitions++
@@ -190,6 +234,10 @@ func c11Replay(sub string, raw json.RawMessage) (string, bool) {
 		_, key, msg := checkUnfragment(oc.List, oc.Unit)
 		return msg, key != ""
 	}
+	if oc.Op == "unfragment-shared" {
+		key, msg, _ := checkUnfragmentShared(oc.List)
+		return msg, key != ""
+	}
 	mid := refops.Fragment(oc.List, oc.P[0])
 	r := lm.Build(mid, []string{"a"}, []string{"r"})
 	r.Subs.Unfragment()
@@ -202,7 +250,7 @@ func init() {
 		ID: "C11", Level: "model_checking",
 		Rule: "states = canonical cue lists; transitions = Unfragment by the real code on a fresh real list compared with the connected-components specification, plus the property's invariants evaluated on the real result (ordered, no same-text cues touching, same texts on screen at every grid instant and half-instant); inverse-law transitions start from fragmented states; non-trivial = at least one merge happened / an inverse-law case",
 		Scope: map[core.Tier]string{
-			core.Quick:    "all lists (any order, overlaps, zero-length, duplicates) of <=2 cues on 0..5 with 3 texts (1ms, 1h+1ms), <=3 on 0..4 and <=4 on 0..3 with 2 texts, <=3 on 0..4 with one text in two segmentations (one run / two runs) and another; inverse law: all start-ordered lists of <=3 cues on 0..6 free of touching same-text cues x f in 1..5; <=3 cues on 0..5 in units of 1 ns and 300 us (gaps shorter than a millisecond)",
+			core.Quick:    "all lists (any order, overlaps, zero-length, duplicates) of <=2 cues on 0..5 with 3 texts (1ms, 1h+1ms), <=3 on 0..4 and <=4 on 0..3 with 2 texts, <=3 on 0..4 with one text in two segmentations (one run / two runs) and another; inverse law: all start-ordered lists of <=3 cues on 0..6 free of touching same-text cues x f in 1..5; every list with equal cues also with those cues being one object listed several times; <=3 cues on 0..5 in units of 1 ns and 300 us (gaps shorter than a millisecond)",
 			core.Thorough: "<=3 cues on 0..5 with 3 texts (1ms, 1h+1ms), <=4 on 0..4 (1ms,1ns) and on 0..5, <=5 on 0..3 with 2 texts; inverse law: <=3 cues on 0..9 x f in 1..5",
 		},
 		Assumptions: []string{"Go toolchain and standard library", "single-line texts (the library compares cues by their joined text)", "reference models refops.Unfragment, refops.Fragment"},
